@@ -175,6 +175,16 @@ MUTATIONS += [
     dict(id="C18-fromconfig-fixed-uses-min", prop="C18", file=CHF, old="            Chunker::FixedSize => Self::FixedSize(FixedSizeChunkIter::new(\n                config.chunk_size(),", new="            Chunker::FixedSize => Self::FixedSize(FixedSizeChunkIter::new(\n                config.chunk_min_size(),"),
 ]
 
+# ---- C09 KeepOptions::apply (Verus)
+MUTATIONS += [
+    dict(id="C09-apply-last-only-if-kept", prop="C09", file=FG, old="            last = Some(sn.clone());\n", new="            if keep {\n                last = Some(sn.clone());\n            }\n"),
+    dict(id="C09-apply-has-next-inverted", prop="C09", file=FG, old="group_keep.matches(&sn, last.as_ref(), iter.peek().is_some(), &latest_time);", new="group_keep.matches(&sn, last.as_ref(), !iter.peek().is_some(), &latest_time);"),
+    dict(id="C09-apply-unchanged-inverted", prop="C09", file=FG, old="iter.peek().is_some_and(|sn_next| sn_next.tree == sn.tree)", new="iter.peek().is_some_and(|sn_next| sn_next.tree != sn.tree)"),
+    dict(id="C09-apply-keep-inverted", prop="C09", file=FG, old="                    let keep = !reasons.is_empty();", new="                    let keep = reasons.is_empty();"),
+    dict(id="C09-apply-validity-not-checked", prop="C09", file=FG, old="        if !self.is_valid() {\n            return Err(RusticError::new(\n                ErrorKind::InvalidInput,\n                \"Invalid keep options", new="        if !self.is_valid() && snapshots.is_empty() {\n            return Err(RusticError::new(\n                ErrorKind::InvalidInput,\n                \"Invalid keep options"),
+    dict(id="C09-apply-expired-kept-by-rules", prop="C09", file=FG, old="                } else if sn.must_delete(now) {\n                    (false, vec![\"snapshot\"])", new="                } else if sn.must_delete(now) && iter.peek().is_some() {\n                    (false, vec![\"snapshot\"])"),
+]
+
 HARMLESS = [
     dict(id="H-C05-trees-symlink-continue", prop="C05", file=CK, old="        for node in tree.nodes {\n            match node.node_type {", new="        for node in tree.nodes {\n            if node.node_type == NodeType::Symlink {\n                continue;\n            }\n            match node.node_type {"),
 ]
